@@ -229,6 +229,102 @@ theorem global_filter_local (m : P → Path → Bool) (c : Config P Path B E) (p
 example : processFile (fun (p : Nat) (q : Nat) => p == q) (tagConfig [] [4] [([], []), ([4], [])]) 5 []
     = .written [0] := by decide
 
+/-! ### the verdict depends only on the SET of patterns, and is monotone in each list -/
+
+/-- **Order and duplication independence**: two filters whose apply lists have the same members
+(both empty or both not) and whose skip lists have the same members give the same verdict on every
+path — reordering or repeating patterns in `apply_to_files` / `skip_files` never changes the selection. -/
+theorem filter_set_only (m : P → Path → Bool) (apply apply' skip skip' : List P) (path : Path)
+    (ha : ∀ p, p ∈ apply ↔ p ∈ apply') (hs : ∀ p, p ∈ skip ↔ p ∈ skip') :
+    shouldApply m apply skip path = shouldApply m apply' skip' path := by
+  have hnil : apply = [] ↔ apply' = [] := by
+    constructor
+    · intro h; subst h
+      cases apply' with
+      | nil => rfl
+      | cons a as => exact absurd ((ha a).2 (List.mem_cons_self ..)) (by simp)
+    · intro h; subst h
+      cases apply with
+      | nil => rfl
+      | cons a as => exact absurd ((ha a).1 (List.mem_cons_self ..)) (by simp)
+  have h1 := filter_exact m apply skip path
+  have h2 := filter_exact m apply' skip' path
+  have : shouldApply m apply skip path = true ↔ shouldApply m apply' skip' path = true := by
+    rw [h1, h2, hnil]
+    constructor
+    · rintro ⟨h | ⟨p, hp, hm⟩, hn⟩
+      · exact ⟨.inl h, fun ⟨q, hq, hqm⟩ => hn ⟨q, (hs q).2 hq, hqm⟩⟩
+      · exact ⟨.inr ⟨p, (ha p).1 hp, hm⟩, fun ⟨q, hq, hqm⟩ => hn ⟨q, (hs q).2 hq, hqm⟩⟩
+    · rintro ⟨h | ⟨p, hp, hm⟩, hn⟩
+      · exact ⟨.inl h, fun ⟨q, hq, hqm⟩ => hn ⟨q, (hs q).1 hq, hqm⟩⟩
+      · exact ⟨.inr ⟨p, (ha p).2 hp, hm⟩, fun ⟨q, hq, hqm⟩ => hn ⟨q, (hs q).1 hq, hqm⟩⟩
+  cases h : shouldApply m apply skip path <;> cases h' : shouldApply m apply' skip' path <;> simp_all
+
+/-- Permuting either list is a special case. -/
+theorem filter_perm (m : P → Path → Bool) {apply apply' skip skip' : List P} (path : Path)
+    (ha : apply.Perm apply') (hs : skip.Perm skip') :
+    shouldApply m apply skip path = shouldApply m apply' skip' path :=
+  filter_set_only m apply apply' skip skip' path (fun _ => ha.mem_iff) (fun _ => hs.mem_iff)
+
+example : shouldApply (fun (p : Nat) (q : Nat) => p == q) [1, 2, 1] [3, 4] 2 =
+    shouldApply (fun (p : Nat) (q : Nat) => p == q) [2, 1] [4, 3, 3] 2 :=
+  filter_set_only _ _ _ _ _ _ (by intro p; simp only [List.mem_cons, List.not_mem_nil, or_false]; omega)
+    (by intro p; simp only [List.mem_cons, List.not_mem_nil, or_false]; omega)
+
+/-- **A skip pattern only ever removes files**: adding patterns to the skip list never selects a
+file that was not selected before. -/
+theorem skip_antitone (m : P → Path → Bool) (apply skip more : List P) (path : Path)
+    (h : shouldApply m apply (skip ++ more) path = true) : shouldApply m apply skip path = true := by
+  rw [filter_exact] at h ⊢
+  exact ⟨h.1, fun ⟨p, hp, hm⟩ => h.2 ⟨p, List.mem_append_left _ hp, hm⟩⟩
+
+/-- **An extra apply pattern only ever adds files**, provided the list was not empty (an empty
+apply list means "every file", so the first pattern given restricts — the one non-monotone step). -/
+theorem apply_monotone (m : P → Path → Bool) (apply skip more : List P) (path : Path)
+    (hne : apply ≠ []) (h : shouldApply m apply skip path = true) :
+    shouldApply m (apply ++ more) skip path = true := by
+  rw [filter_exact] at h ⊢
+  rcases h with ⟨h | ⟨p, hp, hm⟩, hn⟩
+  · exact absurd h hne
+  · exact ⟨.inr ⟨p, List.mem_append_left _ hp, hm⟩, hn⟩
+
+/-- the exception is real: the first apply pattern can deselect a file -/
+example : shouldApply (fun (p : Nat) (q : Nat) => p == q) [] [] 2 = true ∧
+    shouldApply (fun (p : Nat) (q : Nat) => p == q) ([] ++ [1]) [] 2 = false := by decide
+example : shouldApply (fun (p : Nat) (q : Nat) => p == q) [1] [] 1 = true ∧
+    shouldApply (fun (p : Nat) (q : Nat) => p == q) ([1] ++ [2]) [] 1 = true := by decide
+
+/-- **Skip wins**: a path matched by a skip pattern is never selected, whatever the apply list says. -/
+theorem skip_wins (m : P → Path → Bool) (apply skip : List P) (path : Path) (p : P)
+    (hp : p ∈ skip) (hm : m p path = true) : shouldApply m apply skip path = false := by
+  cases h : shouldApply m apply skip path
+  · rfl
+  · exact absurd ⟨p, hp, hm⟩ ((filter_exact m apply skip path).1 h).2
+
+example : shouldApply (fun (p : Nat) (q : Nat) => p == q) [2] [2] 2 = false :=
+  skip_wins _ _ _ _ 2 (by decide) (by decide)
+
+/-- Lifted to the whole pipeline: the result of a file depends on each rule's filters only through
+their pattern SETS — reordering or repeating the patterns of rule `i` changes nothing, on any file,
+for any rule effects (errors included). -/
+theorem pipeline_set_only (m : P → Path → Bool) (rules : List (Rule P Path B E)) (i : Nat)
+    (hi : i < rules.length) (apply skip apply' skip' : List P) (path : Path) (b : B)
+    (ha : ∀ p, p ∈ apply ↔ p ∈ apply') (hs : ∀ p, p ∈ skip ↔ p ∈ skip') :
+    applyRules m (setFilter i apply skip rules) path b =
+      applyRules m (setFilter i apply' skip' rules) path b :=
+  filters_local_output m rules i hi apply skip apply' skip' path b
+    (filter_set_only m apply apply' skip skip' path ha hs)
+
+/-- The same at the top level. -/
+theorem file_set_only (m : P → Path → Bool) (c : Config P Path B E) (apply' skip' : List P) (path : Path) (b : B)
+    (ha : ∀ p, p ∈ c.apply ↔ p ∈ apply') (hs : ∀ p, p ∈ c.skip ↔ p ∈ skip') :
+    processFile m c path b = processFile m { c with apply := apply', skip := skip' } path b := by
+  unfold processFile
+  rw [filter_set_only m c.apply apply' c.skip skip' path ha hs]
+
+example : processFile (fun (p : Nat) (q : Nat) => p == q) (tagConfig [1, 2] [3] [([], [])]) 2 [] =
+    processFile (fun (p : Nat) (q : Nat) => p == q) (tagConfig [2, 1, 2] [3, 3] [([], [])]) 2 [] := by decide
+
 /-! ### the reference matcher means what the documentation says (sanity examples) -/
 
 example : Spec.glob "src/**".toList "src/a/b.lua".toList = some true := by decide
